@@ -26,7 +26,8 @@ RULE = ('random message sequences (all 4 types, both byte orders, random header-
         'seeded short streams and of the handshake/message join')
 STATE_MEASURE = 'distinct (role, boundary-class multiset, messages-per-read profile) tuples'
 PROBES = ['cut-in-fixed-header', 'cut-in-handshake-line', 'join-handshake-and-message',
-          'many-messages-one-read', 'crlf-in-binary', 'big-endian-message', 'one-byte-reads']
+          'many-messages-one-read', 'crlf-in-binary', 'big-endian-message', 'one-byte-reads', 'neighbour-connection-interleaved',
+          'neighbour-lost-mid-stream']
 COMPONENTS = {
     'real': ['txdbus.protocol.BasicDBusProtocol.dataReceived/rawDBusMessageReceived',
              'txdbus.authentication.ClientAuthenticator', 'txdbus.authentication.BusAuthenticator',
@@ -255,8 +256,50 @@ def scenario(ctx):
             sim.probe('one-byte-reads')
         classes = []
         steps = 0
+        # a neighbour: another connection of the same process receives its own stream, its reads
+        # interleaved with ours; it may be lost in the middle of a message
+        nb = None
+        if kind != 'flood' and ds.flag(0.3):
+            sim.probe('neighbour-connection-interleaved')
+            hs2, msgs2 = build_stream(ds, role, 'short', ctx.tier)
+            rec2 = {'raw': [], 'typed': []}
+            proto2 = make_receiver(role, rec2)
+            conn2 = net.Connection(sim, 'n', node, None, unix=(role == 'client-unix'))
+            conn2.attach(proto2, DumbPeer('tx2'))
+            for h in hs2:
+                conn2.b.write(h)
+            for m in msgs2:
+                conn2.b.write(m.raw)
+            nb = {'pipe': conn2.pipes[1], 'back': conn2.pipes[0], 'proto': proto2, 'rec': rec2,
+                  'msgs': msgs2, 'conn': conn2, 'lost': False,
+                  'lose_at': ds.choose(conn2.pipes[1].total) if ds.flag(0.3) else None}
+
+        def neighbour_read(everything=False):
+            p2 = nb['pipe']
+            while p2.buf and nb['proto'].transport.state == net.OPEN and not nb['lost']:
+                n2 = len(p2.buf) if everything and nb['lose_at'] is None else 1 + ds.choose(min(len(p2.buf), 40))
+                if nb['lose_at'] is not None and p2.base + n2 >= nb['lose_at']:
+                    # lost with a message half received
+                    n2 = max(1, nb['lose_at'] - p2.base)
+                    e2 = net.deliver(sim, p2, min(n2, len(p2.buf)))
+                    nb['lost'] = True
+                    sim.probe('neighbour-lost-mid-stream')
+                    nb['conn'].reset()
+                    for t in net.losable(sim):
+                        t.do_lose()
+                else:
+                    e2 = net.deliver(sim, p2, n2)
+                if e2 is not None:
+                    raise Violation('C04/exception', exc_key(e2), 'exception escaped dataReceived of '
+                                    'the neighbour connection: %r' % (e2,))
+                if nb['back'].buf and not nb['lost']:
+                    net.deliver(sim, nb['back'], len(nb['back'].buf))
+                if not everything:
+                    break
         while pipe.buf and proto.transport.state == net.OPEN:
             steps += 1
+            if nb is not None and ds.flag(0.4):
+                neighbour_read()
             n, bc = net.chunk_size(ds, pipe, sizew)
             if bc != 'all':
                 sim.nontrivial = True
@@ -270,6 +313,13 @@ def scenario(ctx):
                 break
         sim.step = steps
         sim.state((role, tuple(sorted(set(classes))), min(steps, 50) // 5))
+        if nb is not None and err is None:
+            neighbour_read(everything=True)
+            if not nb['lost']:
+                if nb['proto'].transport.state != net.OPEN or nb['rec']['raw'] != [m.raw for m in nb['msgs']]:
+                    raise Violation('C04/sequence', 'neighbour',
+                                    'the neighbour connection got %d of its %d messages intact'
+                                    % (len(nb['rec']['raw']), len(nb['msgs'])))
 
     # ---- oracle -------------------------------------------------------------------
     if err is not None:
